@@ -165,7 +165,7 @@ theorem C12_error_no_effect (env : PEnv) (orc : EvalOracles) (expr : Expr) (md :
     (hp : pathjoin PATH_MAX md.path name = some p) (hn : strlcpyFits NAME_MAX1 name = some n)
     (hmf : flagsParse n = some mf)
     (orcl : Nat → Call → Res) (ev : Tri × St)
-    (hrun : (Proofs.Own.runO orcl (evalP (Proofs.msgEnv env orc p) orc.timeFormat expr (parseMessage content) mf)
+    (hrun : (Proofs.Own.runO orcl (evalP (Proofs.msgEnv env orc p) expr (parseMessage content) mf)
       (Proofs.Own.runO orcl (messageParseP d md.path name content) 0).2.2).1 = ev)
     (hev : ev.1 = .match)
     (hint : (matchesInterpolate (Proofs.msgEnv env orc p) ev.2.ml
